@@ -369,7 +369,7 @@ def calibration_seams(sim: sched.Sim):
             setattr(ad, name, orig)
 
 
-def run_calibration(scn: dict, *, simulate: bool = True, forced=None, compute_simulated: bool = False, reset: bool = True) -> dict:
+def run_calibration(scn: dict, *, simulate: bool = True, forced=None, compute_simulated: bool = False, reset: bool = True, pre_run=None) -> dict:
     import pyxel
 
     if reset:
@@ -386,6 +386,8 @@ def run_calibration(scn: dict, *, simulate: bool = True, forced=None, compute_si
             rec.update({"exc": exc, "tb": traceback.format_exc(limit=5), "phase": "build", "hist": []})
             return rec
         rec["objects"] = (cal, det, pipe)
+        if pre_run is not None:
+            pre_run(cal, det, pipe)
         sc = scn.get("sched") or {}
         sim = None
         rs = seams.RngSeam()
